@@ -22,7 +22,30 @@ def std_coq(res, pid, st, extra_files=()):
         res.obligation("go build of harness against /repo", False, st["log"])
     if not st["driver"]:
         res.obligation("extraction + OCaml driver build", False, st["log"])
+    if cp["ok"] and res.tier == "thorough":
+        coqchk(res, pid)
     return cp["ok"]
+
+
+def coqchk(res, pid):
+    """thorough tier: the compiled property file and everything it depends on, re-checked by the independent checker coqchk;
+    its context summary (axioms, type-in-type, unsafe fixpoints, assumed positivity) must be empty"""
+    import subprocess
+    mods = ["Verif.Properties." + pid] + (["Verif.Properties.C03_lexer"] if pid == "C03" else [])
+    t0 = time.time()
+    try:
+        p = subprocess.run(["coqchk", "-silent", "-o", "-Q", "theories", "Verif"] + mods, cwd=vlib.COQ, stdout=subprocess.PIPE,
+                           stderr=subprocess.STDOUT, timeout=3000)
+        out = p.stdout.decode(errors="replace")
+        rc = p.returncode
+    except subprocess.TimeoutExpired:
+        out, rc = "coqchk timed out after 3000 s", 124
+    summ = out[out.find("CONTEXT SUMMARY"):] if "CONTEXT SUMMARY" in out else out[-600:]
+    import re
+    clean = all(re.search(k + r":\s*<none>", summ) for k in ("Axioms", "type-in-type", "unsafe \(co\)fixpoints", "positivity is assumed"))
+    res.obligation("coqchk -o %s: re-checked by the independent checker, no axioms / type-in-type / unsafe fixpoints / assumed positivity"
+                   % " ".join(mods), rc == 0 and clean, summ[-800:])
+    res.extra["coqchk"] = {"modules": mods, "exit": rc, "seconds": round(time.time() - t0, 1), "summary": " ".join(summ.split())[:600]}
 
 
 # ---------------------------------------------------------------- C20
@@ -188,10 +211,10 @@ def lexer_correspondence(res, mode, proj, oracle, label, on_oracle_fail, exh_len
     total = 0
     mism = []
     r = vlib.lex_exhaustive(gens.LEX_ALPHABET, n5, mode, b"", proj, oracle)
-    total += r["n"]; mism += r["mismatches"]; fails = list(r["fails"])
+    total += r["n"]; mism += r["mismatches"]; fails = list(r["fails"]); multi_exh = r["three_records"]
     for pre in LIT_PREFIXES:
         r = vlib.lex_exhaustive(ESC_ALPHABET, 4 if res.tier == "quick" else 5, mode, pre, proj, oracle)
-        total += r["n"]; mism += r["mismatches"]; fails += r["fails"]
+        total += r["n"]; mism += r["mismatches"]; fails += r["fails"]; multi_exh += r["three_records"]
     ins = lexer_inputs(rnd, res.tier, res.pid)
     g, m = vlib.lex_cases(ins, mode, proj)
     for x, y in zip(g, m):
@@ -206,7 +229,7 @@ def lexer_correspondence(res, mode, proj, oracle, label, on_oracle_fail, exh_len
     rest = [(h, x, y) for (h, x, y) in mism if h not in failed_inputs]
     res.obligation("correspondence %s: Go lexer == extracted Coq model on %d strings" % (label, total + len(ins)),
                    not rest, "\n".join("%s\n  go:    %s\n  model: %s" % t for t in rest[:5]))
-    res.add_cases(total + len(ins), nontrivial + total // 2, [g[0], g[len(g) // 2][:300], g[-1][:300]])
+    res.add_cases(total + len(ins), nontrivial + multi_exh, [g[0], g[len(g) // 2][:300], g[-1][:300]])
     res.extra.setdefault("lexer_correspondence", []).append(
         {"label": label, "mode": mode, "projection": proj, "exhaustive_alphabet24_maxlen": n5,
          "exhaustive_strings": total, "escape_family_prefixes": [p.decode("latin-1") for p in LIT_PREFIXES],
@@ -227,7 +250,7 @@ def c13(res, st):
                        "literal prefix x escape alphabet word of <= 4/5 symbols, upstream corpus, random 256-byte strings, token soups, "
                        "mutated corpus; on each: the C13 statement evaluated on the real lexer (oracle) and all tiling observables "
                        "compared with the extracted Coq model for which C13_lossless is proved; non-trivial = at least two tokens "
-                       "(counted exactly on the sampled part, estimated as half of the exhaustive strings)")
+                       "(counted by the harness on the exhaustive strings and on the sampled part)")
     res.assumptions += ["unicode.IsSpace / utf8.DecodeRuneInString are modelled (Base/Utf8.v) and compared with Go on every case",
                         "token.KeywordsMap is read through the translator (Gen/Keywords.v)"]
 
@@ -242,10 +265,10 @@ def c14(res, st):
     total = 0
     mism = []
     r = vlib.lex_exhaustive(gens.LEX_ALPHABET, n5, "p", b"", "c14r", "-")
-    total += r["n"]; mism += r["mismatches"]
+    total += r["n"]; mism += r["mismatches"]; multi_exh = r["three_records"]
     for pre in LIT_PREFIXES:
         r = vlib.lex_exhaustive(ESC_ALPHABET, 4 if res.tier == "quick" else 5, "p", pre, "c14r", "-")
-        total += r["n"]; mism += r["mismatches"]
+        total += r["n"]; mism += r["mismatches"]; multi_exh += r["three_records"]
     ins = escape_matrix() + lexer_inputs(rnd, res.tier, "C14")
     g, m = vlib.lex_cases(ins, "p", "c14r")
     for x, y in zip(g, m):
@@ -268,15 +291,14 @@ def c14(res, st):
                    not mm, "\n".join("%s\n  go:    %s\n  model: %s" % t for t in mm[:5]))
     rejected = sum(1 for x in g if x.endswith("ERR"))
     multi = len(set(x for x in g if x.count(",") > 6))
-    res.add_cases(total + len(ins), multi + total // 2, [g[0][:200], g[len(g) // 2][:200], g[-1][:200]])
+    res.add_cases(total + len(ins), multi + multi_exh, [g[0][:200], g[len(g) // 2][:200], g[-1][:200]])
     res.extra["c14"] = {"exhaustive_strings": total, "matrix_and_sampled": len(ins), "rejected_in_matrix_and_sampled": rejected,
                         "differences_from_reference": len(seen)}
     res.cov["rule"] = ("Go lexer vs the extracted REFERENCE lexer (kind, token text, decoded value, base, acceptance): every string of <= N symbols "
                        "over the 24-symbol lexical alphabet (N=5 quick, 6 thorough), every literal prefix x escape-alphabet word of <= 4/5 symbols, the "
                        "escape/number/operator/keyword matrix (every byte after a backslash, every \\xHH and \\ooo, \\u/\\U at all code-point "
                        "boundaries, in 11 literal forms; number forms x suffixes; all pairs of punctuation; every keyword in 3 spellings, alone and "
-                       "after a dot), corpus, random bytes, token soups, mutants; non-trivial = at least two tokens (counted on the explicit part, "
-                       "half of the exhaustive strings by construction of the alphabet)")
+                       "after a dot), corpus, random bytes, token soups, mutants; non-trivial = accepted with at least two tokens (counted by the harness)")
     res.assumptions += ["the reference lexer (Lex/Reference.v) is the formal reading of the GoogleSQL lexical-structure page; places where the page is "
                         "silent follow the pinned behaviour and are marked DOC-SILENT there",
                         "unicode.IsSpace / utf8 decoding modelled (Base/Utf8.v) and swept against Go in C15"]
